@@ -47,8 +47,12 @@ TRestart == Step(Ev.op = "restart" /\ inflight' = EmptyF /\ UNCHANGED <<world, v
 TDone == Step(Ev.op = "done" /\ Ev.flat /\ Ev.trie /\ stored = AllItems(world) /\ finished' = TRUE
               /\ UNCHANGED <<world, inflight, verified, stored>>)
 
+(* snap/1 run with a pivot move (two target states, no per-item events): the harness compared the  *)
+(* completely iterated trie with the state of the final pivot                                     *)
+TPivotDone == Step(Ev.op = "pivotdone" /\ Ev.trie /\ UNCHANGED vars)
+
 TraceInit == l = 1 /\ world = [n |-> EmptyF, codes |-> << >>] /\ inflight = EmptyF /\ verified = {} /\ stored = {} /\ finished = FALSE
-TraceNext == TWorld \/ TReq \/ TResp \/ TCode \/ TWrite \/ TRestart \/ TDone
+TraceNext == TWorld \/ TReq \/ TResp \/ TCode \/ TWrite \/ TRestart \/ TDone \/ TPivotDone
 TraceSpec == TraceInit /\ [][TraceNext]_<<l, vars>>
 
 StoredVerified == stored \subseteq verified
